@@ -149,6 +149,14 @@ CLAIMS["C02"] = {
     "design_ref": "DESIGN.md §5 C02",
 }
 
+CLAIMS["C01"] = {
+    "technique": "static analysis: clang's type-resolved format checker with injected format attributes over all units plus a literal-provenance rule, output-bound computation for every formatted write into a fixed char array, must-pass CHECK_TYPES analysis of the efun dispatch cases, stack-space check dominance for every value-stack push, saturating-length flow rule, LPC-integer index taint with range guards",
+    "text": "Decides structural necessary conditions of memory safety for all programs at once, per site: ~900 reporter calls have literal or provably driver-literal formats with well-formed conversions; every sprintf/strcpy into a fixed buffer has a computed bound (LPC-controlled numbers at full range) or is reported undecided; "
+            "each F_EFUNn dispatch is behind one CHECK_TYPES per fixed argument; every sp increment is behind a space check or a pop (73 unguarded push sites are recorded findings, so a new one is reported); MSTR_SIZE never reaches a copy/allocation length without its USHRT_MAX fallback; "
+            "subscripts and copy lengths derived from LPC integers are dominated by lower and upper bounds paired with the indexed container. Use-after-free in general, efun-internal pointer arithmetic, pc staying inside the bytecode and optional-argument tag tests (C01-e) are not decided.",
+    "design_ref": "DESIGN.md §5 C01",
+}
+
 NOT_APPLICABLE = {
     "C18": "Line/trace correctness is a value-level question about run-length tables (encode in the code generator, decode in find_line); no clause of it is visible in the shape of the code, so static analysis gives no verdict (DESIGN.md §6).",
 }
